@@ -623,9 +623,10 @@ def run(ctx):
             # quick: two moduli with m1 == 0 and two with m1 != 0 (p = 7), one each above
             n = 2 if p == 7 else 1
             mods = [m for m in mods if m[1] == 0][:n] + [m for m in mods if m[1] != 0][:n]
-        elif p == 13:
-            # thorough: every irreducible quadratic for p <= 11; for p = 13 six of each kind (78 moduli x 169^2 pairs is hours)
-            mods = [m for m in mods if m[1] == 0][:6] + [m for m in mods if m[1] != 0][:6]
+        elif p >= 11:
+            # thorough: every irreducible quadratic for p <= 7; ten [six] of each kind for p = 11 [13] (all of them cost hours)
+            n = 10 if p == 11 else 6
+            mods = [m for m in mods if m[1] == 0][:n] + [m for m in mods if m[1] != 0][:n]
         for mc in mods:
             nquad += 1
             for fam in ("ref", "opt"):
